@@ -785,7 +785,7 @@ class Container:
                 raise ValueError(f"Not enough mixture left in source container ({source_container.name}). " +
                                  f"Only {Unit.convert_from_storage(source_container.volume, 'mL')} mL available, " +
                                  f"{Unit.convert_from_storage(volume_to_transfer, 'mL')} mL needed.")
-            ratio = volume_to_transfer / source_container.volume
+            requested, available = volume_to_transfer, source_container.volume
 
         elif unit == 'g':
             mass_to_transfer = round(quantity_to_transfer, config.internal_precision)
@@ -793,20 +793,27 @@ class Container:
             for substance, amount in source_container.contents.items():
                 source_unit = 'U' if substance.is_enzyme() else config.moles_storage_unit
                 total_mass += Unit.convert_from(substance, amount, source_unit, "g")
-            ratio = mass_to_transfer / total_mass
+            requested, available = mass_to_transfer, total_mass
         elif unit == 'mol':
             moles_to_transfer = Unit.convert_to_storage(quantity_to_transfer, 'mol')
             total_moles = sum(amount for substance, amount in source_container.contents.items()
                               if not substance.is_enzyme())
-            ratio = moles_to_transfer / total_moles
+            requested, available = moles_to_transfer, total_moles
         elif unit == 'U':
             total_activity = sum(amount for substance, amount in source_container.contents.items()
                                  if substance.is_enzyme())
             if total_activity == 0:
                 raise ValueError("There are no enzymes in the source container.")
-            ratio = quantity_to_transfer / total_activity
+            requested, available = quantity_to_transfer, total_activity
         else:
             raise ValueError("Invalid quantity unit.")
+
+        if requested < 0:
+            raise ValueError("Quantity to transfer must not be negative.")
+        if round(requested - available, config.internal_precision) > 0:
+            raise ValueError(f"Not enough mixture left in source container ({source_container.name}): " +
+                             f"{quantity} requested.")
+        ratio = min(requested / available, 1.0) if available else 0.0
 
         source_container, to = deepcopy(source_container), deepcopy(self)
         for substance, amount in source_container.contents.items():
